@@ -120,6 +120,8 @@ pub struct UnwindContext<'a> {
     fde: FrameDescriptionEntry<EndianArcSlice, usize>,
     debugee: &'a Debugee,
     cfa: RelocatedAddress,
+    /// True if the CFI row marks the return address as undefined (outermost frame).
+    ra_undefined: bool,
 }
 
 impl<'a> UnwindContext<'a> {
@@ -170,6 +172,10 @@ impl<'a> UnwindContext<'a> {
             Err(e) => return Err(e.into()),
         };
         let cfa = dwarf.evaluate_cfa(debugee, &registers_snap, row, ecx)?;
+        let ra_undefined = matches!(
+            row.register(fde.cie().return_address_register()),
+            Some(RegisterRule::Undefined)
+        );
 
         let mut lazy_evaluator = None;
         let evaluator_init_fn = || -> Result<ExpressionEvaluator, Error> {
@@ -239,6 +245,7 @@ impl<'a> UnwindContext<'a> {
             debugee,
             fde,
             cfa,
+            ra_undefined,
         }))
     }
 
@@ -255,6 +262,10 @@ impl<'a> UnwindContext<'a> {
     }
 
     fn return_address(&self) -> Option<RelocatedAddress> {
+        if self.ra_undefined {
+            // end of the call chain, the caller frame doesn't exist
+            return None;
+        }
         let register = self.fde.cie().return_address_register();
         self.registers
             .value(register)
@@ -310,11 +321,12 @@ impl<'a> DwarfUnwinder<'a> {
         )?;
 
         let mut bt = vec![FrameSpan::new(self.debugee, ecx.location())?];
-        let mut visited_ips = HashSet::new();
-        visited_ips.insert(frame_0_location.pc);
         let Some(mut ucx) = mb_ucx else {
             return Ok(bt);
         };
+        // a frame is identified by its instruction pointer and its CFA,
+        // the same return address with another CFA is a recursive call, not a loop
+        let mut visited_frames = HashSet::new();
 
         // start unwind
         while let Some(return_addr) = ucx.return_address() {
@@ -326,7 +338,7 @@ impl<'a> DwarfUnwinder<'a> {
                 break;
             }
 
-            if !visited_ips.insert(return_addr) {
+            if !visited_frames.insert((return_addr, ucx.cfa)) {
                 break;
             }
 
